@@ -9,11 +9,11 @@ RULE = ("the header space (quick: all 256 classes x 256 instructions with P1 in 
         "with/without Le), random data, key-handle length byte agreeing and disagreeing with the data. The answer must equal the model's and an "
         "independent Python transcription of the decision table. Non-trivial = distinct APDU")
 ASSUMPTIONS = ["APDUs that iso7816 0.1.4 itself rejects (class 0xFF, malformed Lc/Le) never reach the conversion; their framing error must agree with the model of parse_lengths"]
-TECHNIQUE = "Coq proof: conversion equals the U2F decision table for every APDU view, never panics; control-byte table regenerated; differential run over headers x boundary lengths x 4 encodings with an independent oracle"
-LEVEL_TEXT = ("Theorem: for every command view (any class, instruction, P1, data of any length) the model of TryFrom<CommandView> equals the decision table "
-              "of the U2F raw message format, class check first, never reaching a panic site; field lengths of accepted requests proved; the control-byte "
-              "table is regenerated from /repo; ISO 7816 framing (iso7816 0.1.4 parse_lengths) is modelled and tied by the differential run over all four "
-              "length encodings.")
+TECHNIQUE = "Coq proof: conversion equals the U2F decision table for every APDU view, never panics; ISO 7816 framing round trip in all seven encodings (case 1, 2S, 3S, 4S, 2E, 3E, 4E) for every header, data field and Le, hence the decision table holds from raw bytes; control-byte table regenerated; differential run over headers x boundary lengths x 4 encodings with an independent oracle"
+LEVEL_TEXT = ("Theorems: for every command view (any class, instruction, P1, data of any length) the model of TryFrom<CommandView> equals the decision table of the U2F raw message format, class "
+              "check first, never reaching a panic site; field lengths of accepted requests; c08_frame_short / c08_frame_extended (coq/Proofs/FrameP.v): parsing the frame built from any header, any "
+              "data field (<= 255 / <= 65535 bytes) and any Le in each ISO 7816-4 encoding returns exactly that header, data and Le; c08_raw_apdu_decision composes the two. The control-byte table is "
+              "regenerated from /repo (all 256 P1 values). iso7816 0.1.4 parse_lengths is modelled (third-party) and tied by the differential run over all four length encodings.")
 
 
 def feature_sets(tier):
